@@ -159,7 +159,9 @@ class SdfTransformer(Transformer):
     @staticmethod
     def start(args):
         name = next((a for a in args if isinstance(a, str)), None)
-        cells = dict(t for t in args if isinstance(t, tuple))
+        cells = dict()
+        for n, entries in (t for t in args if isinstance(t, tuple)):
+            cells.setdefault(n, []).extend(entries)  # a file may spread one instance over several CELL blocks
         return DelayFile(name, cells)
 
 
